@@ -94,6 +94,24 @@ def t_mutate(c, a):
             nb = CBuf(len(raw), bytes(raw))
             if L.SDwritedata(s, i32arr([0] * len(shape)), None, i32arr(shape), nb.ptr) == FAIL:
                 r = FAIL
+        elif where == "ulp":
+            # A holds 0.5 at that element, B the next representable value (a difference far below any epsilon
+            # meant for rounding noise, but a different value)
+            import math
+            fmt = DFNT_FMT[nt.value]
+            idx = [x // 2 for x in shape]
+            sdA = L.SDstart(c.v["A"].encode(), DFACC_RDWR)
+            sA = L.SDselect(sdA, L.SDnametoindex(sdA, name.encode()))
+            a0 = CBuf(sz, struct.pack("=" + fmt, 0.5))
+            L.SDwritedata(sA, i32arr(idx), None, i32arr([1] * len(shape)), a0.ptr)
+            a0.free()
+            L.SDendaccess(sA)
+            L.SDend(sdA)
+            nxt = struct.unpack("=" + fmt, struct.pack("=" + ("I" if fmt == "f" else "Q"), struct.unpack("=" + ("I" if fmt == "f" else "Q"), struct.pack("=" + fmt, 0.5))[0] + 1))[0]
+            b = CBuf(sz)
+            nb = CBuf(sz, struct.pack("=" + fmt, nxt))
+            if L.SDwritedata(s, i32arr(idx), None, i32arr([1] * len(shape)), nb.ptr) == FAIL:
+                r = FAIL
         else:
             b = CBuf(sz)
             if L.SDreaddata(s, i32arr(idx), None, i32arr([1] * len(shape)), b.ptr) == FAIL:
@@ -281,6 +299,70 @@ def imp_values(n, ty):
     return [((i * 37) % (2 * m)) - m for i in range(n)]
 
 
+def write_bin(path, ty, shape, vals, scales):
+    code = {"FP32": b"FP32", "FP64": b"FP64", "IN32": b"IN32", "IN16": b"IN16", "IN08": b"IN08"}[ty]
+    fmt = {"FP32": "f", "FP64": "d", "IN32": "i", "IN16": "h", "IN08": "b"}[ty]
+    with open(path, "wb") as f:
+        f.write(code)
+        f.write(struct.pack("=3i", *shape))
+        f.write(struct.pack("=2" + fmt, max(vals), min(vals)))
+        for d in (0, 1, 2):
+            if d == 0 and shape[0] == 1:
+                continue
+            f.write(struct.pack("=%d%s" % (shape[d], fmt), *scales[d]))
+        f.write(struct.pack("=%d%s" % (len(vals), fmt), *vals))
+
+
+def import_multi(c, types):
+    """several binary inputs in one invocation: one dataset per input, in order"""
+    L = c.L
+    shape = [1, 4, 5]
+    n = 20
+    cmd = [tool("hdfimport")]
+    wants = []
+    for i, ty in enumerate(types):
+        vals = [v + i for v in imp_values(n, ty)]
+        isf = ty in ("FP32", "FP64")
+        scales = [[float(j + 1) if isf else j + 1 for j in range(d)] for d in shape]
+        inp = os.path.join(c.dir, "in%d.dat" % i)
+        write_bin(inp, ty, shape, vals, scales)
+        cmd.append(inp)
+        wants.append(vals)
+    outp = os.path.join(c.dir, "outm.hdf")
+    cmd += ["-o", outp]
+    rc, out, err = run(cmd)
+    if rc != 0 or not os.path.exists(outp):
+        return {"agree": False, "why": ["hdfimport exit %d: %s" % (rc, (out + err)[-300:])]}
+    why = []
+    sd = L.SDstart(outp.encode(), DFACC_READ)
+    nd, na = c_int32(), c_int32()
+    L.SDfileinfo(sd, byref(nd), byref(na))
+    got = []
+    for i in range(nd.value):
+        s = L.SDselect(sd, i)
+        if not L.SDiscoordvar(s):
+            nm, rk, nt, na2 = create_string_buffer(300), c_int32(), c_int32(), c_int32()
+            dims = (c_int32 * 32)()
+            L.SDgetinfo(s, nm, byref(rk), dims, byref(nt), byref(na2))
+            b = CBuf(n * DFNT_SIZE[nt.value])
+            L.SDreaddata(s, i32arr([0] * rk.value), None, i32arr([dims[k] for k in range(rk.value)]), b.ptr)
+            got.append(struct.unpack("=%d%s" % (n, DFNT_FMT[nt.value]), b.raw()))
+            b.free()
+        L.SDendaccess(s)
+    L.SDend(sd)
+    if len(got) != len(wants):
+        why.append("%d datasets for %d inputs" % (len(got), len(wants)))
+    else:
+        for i, (g, w) in enumerate(zip(got, wants)):
+            bad = [j for j in range(n) if not close(float(w[j]), float(g[j]))]
+            if bad:
+                why.append("input %d (%s): value %d is %r, input %r (%d differ)" % (i, types[i], bad[0], g[bad[0]], w[bad[0]], len(bad)))
+    o = {"agree": not why}
+    if why:
+        o["why"] = why
+    return o
+
+
 @op("Tools", "Import")
 def t_import(c, a):
     """case = <TEXT|BIN>:<type>:<rank>[:n]"""
@@ -288,6 +370,8 @@ def t_import(c, a):
     h4api.declare_all(L)
     os.chdir(c.dir)
     parts = a["case"].split(":")
+    if parts[0] == "MULTI":
+        return import_multi(c, parts[1].split("+"))
     form, ty, rank = parts[0], parts[1], int(parts[2])
     shape = [3, 4, 5] if rank == 3 else [1, 4, 5]
     n = shape[0] * shape[1] * shape[2]
